@@ -21,7 +21,9 @@ RULE = ("generated argument sets for generate_data (n_features 1..12, n_samples 
         "(shuffled entries, shuffled / interleaved index lists), ensure_rep on/off incl. n_samples = |domain| and +-1, "
         "random_values with (low, high) incl. high-low+1 = cardinality, k, seeds; ~3% value lists outside int32 (stated "
         "precondition: counted, only dtype/shape/determinism checked); naive generator sizes >= 31 features and the "
-        "data_generator task; non-trivial = n_samples >= 2 and some column domain with >= 2 values; distinct = distinct "
+        "data_generator task; HISTORIES: one generator instance, 2-4 generate_data calls with the same seed and k and column "
+        "domains of equal size but different contents (default range / value lists with another spacing / random draws / "
+        "[values, frequencies]), every call replayed by the model on its own trace and compared with a fresh instance; non-trivial = n_samples >= 2 and some column domain with >= 2 values; distinct = distinct "
         "argument sets")
 THEOREMS = ["C19_shape", "C19_domain", "C19_positions", "C19_positions_at", "C19_positions_default",
             "C19_positions_duplicates_rejected", "C19_positions_unsorted_prefix_refuted", "C19_ensure_rep",
@@ -159,6 +161,49 @@ def gen_case(rng, big=False):
         case["low"] = rng.choice([0, 0, 0, rng.randint(-20, 20)])
         case["high"] = rng.choice([1000, 1000, case["low"] + 3])
     return case
+
+
+def gen_history(rng):
+    """One generator INSTANCE, several generate_data calls with the same seed and k whose column domains have the same
+    number of values but different contents (consecutive default range, explicit lists with another spacing, random
+    draws): anything the instance remembers between calls (memoised densities, cached domains, a remembered seed)
+    shows up as a difference to a fresh instance given the same arguments."""
+    c = rng.randint(2, 6)
+    nf = rng.randint(1, 4)
+    k = rng.choice([None, 10, 10, 5, 2.5])
+    seed = rng.choice([11, 42, rng.randint(0, 2 ** 32 - 1)])
+    ens = rng.random() < 0.3
+    calls = []
+    kinds = ["default"] + [rng.choice(["default", "values", "values", "random", "valsp"]) for _ in range(rng.randint(1, 3))]
+    if "values" not in kinds:
+        kinds[-1] = "values"
+    if rng.random() < 0.3:
+        rng.shuffle(kinds)
+    for kd in kinds:
+        call = {"kind": "gen", "n_features": nf, "n_samples": rng.randint(25, 60), "cardinality": c, "ensure_rep": ens,
+                "random_values": False, "k": k, "seed": seed, "structure": None, "structure_form": "list",
+                "low": 0, "high": 1000}
+        if kd == "default":
+            call["low"] = rng.choice([0, 0, rng.randint(-20, 20)])
+        elif kd == "random":
+            call["random_values"] = True
+            call["low"] = rng.randint(-50, 50)
+            call["high"] = call["low"] + rng.choice([c * 40, 1000])
+        else:
+            step = rng.choice([2, 3, 5, 10, 10, 100, -7])
+            base = rng.randint(-100, 100)
+            vs = [base + step * i for i in range(c)]
+            if rng.random() < 0.3:
+                vs = sorted(rng.sample(range(-500, 500), c))
+            ixs = list(range(nf)) if rng.random() < 0.6 else sorted(rng.sample(range(nf), rng.randint(1, nf)))
+            if kd == "valsp":
+                at = {"kind": "valsp", "vs": vs, "ps": [rng.randint(1, 5) for _ in vs], "form": "list", "p_form": "int",
+                      "p_container": "list"}
+            else:
+                at = {"kind": "vals", "vs": vs, "form": rng.choice(["list", "ndarray"])}
+            call["structure"] = [{"ix": ixs, "ix_form": "list", "attr": at, "entry_form": "tuple"}]
+        calls.append(call)
+    return {"kind": "hist", "calls": calls}
 
 
 def gen_naive(rng, big=False):
@@ -322,16 +367,30 @@ def check(run, replay):
     else:
         cases = load_corpus("C19")
         if run.tier == "quick":
-            cases += [gen_case(rng) for _ in range(260)]
+            cases += [gen_case(rng) for _ in range(260)] + [gen_history(rng) for _ in range(40)]
             cases += [gen_naive(rng) for _ in range(6)] + [gen_task(rng) for _ in range(2)]
         else:
             cases += [gen_case(rng) for _ in range(2500)] + [gen_case(rng, big=True) for _ in range(120)]
+            cases += [gen_history(rng) for _ in range(400)]
             cases += [gen_naive(rng) for _ in range(30)] + [gen_naive(rng, big=True) for _ in range(6)]
             cases += [gen_task(rng) for _ in range(6)]
     out = vlib.run_impl("impl_c19.py", {"cases": cases})
     if out.get("import_error"):
         raise vlib.Broken("impl-import", out["import_error"])
-    res = out["results"]
+    # histories expand to one unit per call; a failing unit is reported with the history up to that call
+    submitted, cases, res, report = cases, [], [], []
+    n_hist = 0
+    for c, r in zip(submitted, out["results"]):
+        if c.get("kind") != "hist":
+            cases.append(c); res.append(r); report.append(c)
+            continue
+        n_hist += 1
+        if not r["ok"]:
+            j = min(r.get("call_index", len(c["calls"]) - 1), len(c["calls"]) - 1)
+            cases.append(c["calls"][j]); res.append(r); report.append({"kind": "hist", "calls": c["calls"][:j + 1]})
+            continue
+        for j, (cj, rj) in enumerate(zip(c["calls"], r["calls"])):
+            cases.append(cj); res.append(rj); report.append({"kind": "hist", "calls": c["calls"][:j + 1]})
 
     hist = {"kinds": {}, "structure": {"none": 0, "empty": 0, "sorted": 0, "unsorted": 0, "ndarray2d": 0},
             "attr_kinds": {}, "index_forms": {}, "ensure_rep": 0, "ensure_rep_boundary": 0, "random_values": 0,
@@ -376,7 +435,8 @@ def check(run, replay):
                 direct[i].append(("n_samples x n_features", "shape %s" % r["shape"]))
             if not r["same_seed_equal"]:
                 direct[i].append(("the same seed and arguments reproduce the same data set",
-                                  "second/third run with the same seed differ"))
+                                  "used instance (after the earlier calls of the history) and fresh instance differ"
+                                  if report[i].get("kind") == "hist" else "second/third run with the same seed differ"))
             X = r["X"]
             if not int_matrix(X):
                 direct[i].append(("cells are integers", "non-integer cells"))
@@ -471,7 +531,7 @@ def check(run, replay):
     for i in failing[:20]:
         clause, detail = direct[i][0]
         r = res[i]
-        run.violation("counterexample", "C19 on implementation output", case=cases[i],
+        run.violation("counterexample", "C19 on implementation output", case=report[i],
                       impl={k: r.get(k) for k in ("dtype", "shape", "X", "error", "target", "header") if k in r},
                       model=detail, clause="; ".join(cl for cl, _ in direct[i]),
                       extra={"all_failing_cases": len(failing)})
@@ -495,10 +555,10 @@ def check(run, replay):
         i, why, _ = unexplained[0]
         run.violation("broken-obligation", "correspondence:trace-replay (model and code disagree on %d of %d replayed cases; "
                       "validators accept every output)" % (len(unexplained), len(idx)),
-                      case=cases[i], impl={"X": res[i].get("X"), "trace_fns": [e.get("fn") for e in res[i].get("trace", [])][:60]},
+                      case=report[i], impl={"X": res[i].get("X"), "trace_fns": [e.get("fn") for e in res[i].get("trace", [])][:60]},
                       model=why, clause="none found: validator and direct clause checks accept every implementation output",
                       found_input=False,
-                      extra={"mismatching_cases": [{"case": cases[j], "why": w, "call_pattern_differs": pd}
+                      extra={"mismatching_cases": [{"case": report[j], "why": w, "call_pattern_differs": pd}
                                                    for j, w, pd in unexplained[:10]], "count": len(unexplained)})
     if global_change and not failing:
         run.notes.append("trace replay not applicable to this RNG call pattern (global change: all %d generate_data cases "
@@ -506,12 +566,14 @@ def check(run, replay):
                          "%d outputs; dtype, shape and same-seed determinism (second call on the same instance after extra "
                          "draws, fresh instance with another constructor seed) passed on every case"
                          % (gen_in_scope, len(gen_broken)))
-        run.cov["validator_only_first_case"] = {"case": cases[gen_broken[0][0]], "why": gen_broken[0][1],
+        run.cov["validator_only_first_case"] = {"case": report[gen_broken[0][0]], "why": gen_broken[0][1],
                                                 "trace_fns": [e.get("fn") for e in res[gen_broken[0][0]].get("trace", [])][:40]}
     run.cov["replayed_exactly"] = replayed
     run.cov["validator_only_cases"] = len(gen_broken) if global_change else 0
     run.cov["replay_mismatches"] = len(broken)
     run.cov["validator_evaluated_on"] = sum(1 for i in idx if cases[i].get("kind", "gen") == "gen")
+    hist["histories"] = n_hist
+    hist["history_calls"] = sum(1 for rp in report if rp.get("kind") == "hist")
     run.cov["input_distribution"] = hist
     run.cov["exhaustive"] = False
     run.samples = [c for c in cases if c.get("kind", "gen") == "gen" and c["structure"]][:2] + \
